@@ -229,16 +229,16 @@ theorem not_schedOk_nonIterable (T : Tables) (L : Lists) : ¬ SchedOk T L .nonIt
   rintro ⟨ps, h, _⟩; cases h
 
 theorem validateSchedulesAux_ok_iff (T : Tables) (hT : 1 ≤ T.minLen) (L : Lists) (ss : List Schedule)
-    (i : Nat) (stale : Option Nat) :
-    validateSchedulesAux T L ss i stale = .ok () ↔ ∀ s ∈ ss, SchedOk T L s := by
-  induction ss generalizing i stale with
+    (i : Nat) :
+    validateSchedulesAux T L ss i = .ok () ↔ ∀ s ∈ ss, SchedOk T L s := by
+  induction ss generalizing i with
   | nil => simp [validateSchedulesAux]
   | cons s rest ih =>
     cases s with
     | nonIterable =>
       simp only [validateSchedulesAux, List.mem_cons, forall_eq_or_imp]
       constructor
-      · intro h; split at h <;> cases h
+      · intro h; cases h
       · rintro ⟨h, _⟩; exact absurd h (not_schedOk_nonIterable T L)
     | items its =>
       simp only [validateSchedulesAux, List.mem_cons, forall_eq_or_imp, schedOk_iff T hT L its]
@@ -252,10 +252,10 @@ theorem validateSchedulesAux_ok_iff (T : Tables) (hT : 1 ≤ T.minLen) (L : List
           · cases h
           · cases h
           · rename_i ho
-            exact ⟨⟨names, hn, ho⟩, (ih _ _).1 h⟩
+            exact ⟨⟨names, hn, ho⟩, (ih _).1 h⟩
       · rintro ⟨⟨names, hn, ho⟩, hrest⟩
         simp only [hn, ho]
-        exact (ih _ _).2 hrest
+        exact (ih _).2 hrest
 
 /-- no `KeyError`: every accepted kind is a key of the object dictionary -/
 def KindsAreKeys (T : Tables) : Prop :=
@@ -292,23 +292,25 @@ theorem validateItems_ne_keyError (T : Tables) (hK : KindsAreKeys T) (L : Lists)
   obtain ⟨_, it, _, _, _, h3, _⟩ := validateItems_error T L its j j' _ h
   exact validateItem_ne_keyError T hK L it h3
 
-/-- what an error of `_validate_schedules` means (all schedules iterable): the first schedule that is not
-well formed decides; it is an item error (position of its first failing item, that item's exception) if an
-item fails, otherwise an order error. -/
+/-- what an error of `_validate_schedules` means: the first schedule that is not well formed decides; a schedule
+that cannot be iterated gives the item error without an item position, otherwise it is an item error (position of
+its first failing item, that item's exception) if an item fails, otherwise an order error. -/
 theorem validateSchedulesAux_error (T : Tables) (hT : 1 ≤ T.minLen) (hK : KindsAreKeys T) (L : Lists)
-    (ss : List Schedule) (i : Nat) (stale : Option Nat) (e : Err)
-    (hiter : ∀ s ∈ ss, s ≠ .nonIterable)
-    (h : validateSchedulesAux T L ss i stale = .error e) :
-    ∃ pre its post, ss = pre ++ .items its :: post ∧ (∀ x ∈ pre, SchedOk T L x) ∧
-      ¬ SchedOk T L (.items its) ∧
-      ((∃ j ex, e = .item (i + pre.length) j ex ∧ validateItems T L its 0 = .error (j, ex)) ∨
-       (∃ names r, e = .order (i + pre.length) r ∧ validateItems T L its 0 = .ok names ∧
+    (ss : List Schedule) (i : Nat) (e : Err)
+    (h : validateSchedulesAux T L ss i = .error e) :
+    ∃ pre s post, ss = pre ++ s :: post ∧ (∀ x ∈ pre, SchedOk T L x) ∧ ¬ SchedOk T L s ∧
+      ((s = .nonIterable ∧ e = .itemNoPos (i + pre.length)) ∨
+       (∃ its j ex, s = .items its ∧ e = .item (i + pre.length) j ex ∧ validateItems T L its 0 = .error (j, ex)) ∨
+       (∃ its names r, s = .items its ∧ e = .order (i + pre.length) r ∧ validateItems T L its 0 = .ok names ∧
           validateOrder T names = .error r)) := by
-  induction ss generalizing i stale with
+  induction ss generalizing i with
   | nil => simp [validateSchedulesAux] at h
   | cons s rest ih =>
     cases s with
-    | nonIterable => exact absurd rfl (hiter _ (by simp))
+    | nonIterable =>
+      simp only [validateSchedulesAux] at h
+      injection h with h; subst h
+      exact ⟨[], .nonIterable, rest, rfl, by simp, not_schedOk_nonIterable T L, Or.inl ⟨rfl, by simp⟩⟩
     | items its =>
       simp only [validateSchedulesAux] at h
       split at h
@@ -316,7 +318,7 @@ theorem validateSchedulesAux_error (T : Tables) (hT : 1 ≤ T.minLen) (hK : Kind
         exact absurd hj (validateItems_ne_keyError T hK L its 0 j)
       · rename_i j ex hne hj
         injection h with h; subst h
-        refine ⟨[], its, rest, rfl, by simp, ?_, Or.inl ⟨j, ex, by simp, hj⟩⟩
+        refine ⟨[], .items its, rest, rfl, by simp, ?_, Or.inr (Or.inl ⟨its, j, ex, rfl, by simp, hj⟩)⟩
         rw [schedOk_iff T hT]; rintro ⟨names, h1, _⟩; rw [hj] at h1; cases h1
       · rename_i names hn
         split at h
@@ -344,13 +346,12 @@ theorem validateSchedulesAux_error (T : Tables) (hT : 1 ≤ T.minLen) (hK : Kind
                   exact this ho
         · rename_i r hne ho
           injection h with h; subst h
-          refine ⟨[], its, rest, rfl, by simp, ?_, Or.inr ⟨names, r, by simp, hn, ho⟩⟩
+          refine ⟨[], .items its, rest, rfl, by simp, ?_, Or.inr (Or.inr ⟨its, names, r, rfl, by simp, hn, ho⟩)⟩
           rw [schedOk_iff T hT]; rintro ⟨names', h1, h2⟩
           rw [hn] at h1; injection h1 with h1; subst h1; rw [ho] at h2; cases h2
         · rename_i ho
-          obtain ⟨pre, its', post, h1, h2, h3, h4⟩ :=
-            ih (i + 1) _ (fun s hs => hiter s (by simp [hs])) h
-          refine ⟨.items its :: pre, its', post, by simp [h1], ?_, h3, ?_⟩
+          obtain ⟨pre, s', post, h1, h2, h3, h4⟩ := ih (i + 1) h
+          refine ⟨.items its :: pre, s', post, by simp [h1], ?_, h3, ?_⟩
           · intro x hx
             rcases List.mem_cons.1 hx with rfl | hx
             · exact (schedOk_iff T hT L its).2 ⟨names, hn, ho⟩
@@ -440,10 +441,10 @@ theorem accept_iff_wellformed' (L : Lists) (ss : List Schedule) :
 /-! ## tomography classes -/
 
 theorem specs_eq' :
-    qstSpec = ⟨[(0, "state"), (1, "povm")], 0, [1, 2, 0, 0]⟩ ∧
-    povmtSpec = ⟨[(0, "state"), (1, "povm")], 1, [2, 1, 0, 0]⟩ ∧
-    qptSpec = ⟨[(0, "state"), (1, "gate"), (2, "povm")], 1, [2, 2, 1, 0]⟩ ∧
-    qmptSpec = ⟨[(0, "state"), (1, "mprocess"), (2, "povm")], 1, [2, 2, 0, 1]⟩ := ⟨rfl, rfl, rfl, rfl⟩
+    qstSpec = ⟨[(0, "state"), (1, "povm")], 0, [1, 2, 0, 0], none⟩ ∧
+    povmtSpec = ⟨[(0, "state"), (1, "povm")], 1, [2, 1, 0, 0], none⟩ ∧
+    qptSpec = ⟨[(0, "state"), (1, "gate"), (2, "povm")], 1, [2, 2, 1, 0], none⟩ ∧
+    qmptSpec = ⟨[(0, "state"), (1, "mprocess"), (2, "povm")], 1, [2, 2, 0, 1], some 3⟩ := ⟨rfl, rfl, rfl, rfl⟩
 
 
 
@@ -468,13 +469,26 @@ theorem mapM_pairs?_toSched (pss : List (List (String × Int))) :
     simp only [List.map_cons] at ih ⊢
     simp [pairs?_toSched, ih]
 
-/-- the class-specific test on one schedule, independent of its position -/
+/-- the class-specific test on one schedule, independent of its position: the length test (where the class has
+one), the positional kind tests, the fixed index -/
 def TomoOneOk (sp : TomoSpec) (ps : List (String × Int)) : Prop :=
-  posTests ps sp.pos = some false ∧ ∃ n, ps[sp.zero]? = some (n, 0)
+  (∀ n, sp.len = some n → ps.length = n) ∧ posTests ps sp.pos = some false ∧ ∃ n, ps[sp.zero]? = some (n, 0)
+
+theorem firstTest_false_iff (sp : TomoSpec) (ps : List (String × Int)) :
+    firstTest sp ps = some false ↔ (∀ n, sp.len = some n → ps.length = n) ∧ posTests ps sp.pos = some false := by
+  unfold firstTest
+  cases h : sp.len with
+  | none => simp
+  | some n =>
+    simp only [Option.some.injEq, forall_eq']
+    by_cases hl : ps.length = n
+    · simp [hl]
+    · simp [hl]
 
 theorem tomoValidateOne_ok_iff (sp : TomoSpec) (i : Nat) (ps : List (String × Int)) :
     tomoValidateOne sp i ps = .ok () ↔ TomoOneOk sp ps := by
   unfold tomoValidateOne TomoOneOk
+  rw [← and_assoc, ← firstTest_false_iff]
   split
   · simp_all
   · simp_all
@@ -715,7 +729,7 @@ theorem three_item_shape (L : Lists) (mid other : String) (sp : TomoSpec)
       (∀ q ∈ tail, q = (mid, 0)) ∧ InRange L ("state", i) ∧ InRange L ("povm", j) ∧
       (tail.map (·.1)).getLast? ≠ some "povm" ∧ (tail ≠ [] → (mid = "povm" ∨ mid = "mprocess")) := by
   obtain ⟨hp, hz⟩ := hsp
-  unfold TomoOneOk at ht
+  obtain ⟨_, ht⟩ := ht
   rw [hp, hz] at ht
   match ps, hr, ho, ht with
   | [], _, _, ht => simp [posTests] at ht
@@ -825,11 +839,11 @@ theorem qpt_one (nS nP : Nat) (ps : List (String × Int)) :
 
 theorem qmpt_one (nS nP : Nat) (ps : List (String × Int)) :
     (((∀ p ∈ ps, InRange (tomoLists qmptSpec nS nP) p) ∧ OrderRule (ps.map (·.1))) ∧ TomoOneOk qmptSpec ps) ↔
-      ∃ i j k : Nat, i < nS ∧ j < nP ∧
-        ps = [("state", (i : Int)), ("mprocess", 0), ("povm", (j : Int))] ++ List.replicate k ("mprocess", 0) := by
+      ∃ i j : Nat, i < nS ∧ j < nP ∧ ps = [("state", (i : Int)), ("mprocess", 0), ("povm", (j : Int))] := by
   rw [qmptLists_eq]
   constructor
   · rintro ⟨⟨hr, ho⟩, ht⟩
+    have hlen : ps.length = 3 := ht.1 3 (by rw [specs_eq'.2.2.2])
     obtain ⟨i, j, tail, rfl, h1, h2, h3, _, _⟩ :=
       three_item_shape _ "mprocess" "gate" qmptSpec ⟨specs_eq'.2.2.2 ▸ rfl, specs_eq'.2.2.2 ▸ rfl⟩
         (by
@@ -841,32 +855,22 @@ theorem qmpt_one (nS nP : Nat) (ps : List (String × Int)) :
           · refine Or.inr (Or.inr ⟨h.1, ?_⟩)
             have := h.2; simp only [List.length_cons, List.length_nil] at this; omega)
         (by decide) ps hr ho ht
+    have htail : tail = [] := by
+      simp only [List.length_cons] at hlen
+      exact List.length_eq_zero_iff.1 (by omega)
+    subst htail
     simp [InRange] at h2 h3
-    refine ⟨i.toNat, j.toNat, tail.length, by omega, by omega, ?_⟩
+    refine ⟨i.toNat, j.toNat, by omega, by omega, ?_⟩
     rw [Int.toNat_of_nonneg h2.1, Int.toNat_of_nonneg h3.1]
-    have : tail = List.replicate tail.length ("mprocess", (0 : Int)) :=
-      List.eq_replicate_iff.2 ⟨rfl, h1⟩
-    rw [← this]; rfl
-  · rintro ⟨i, j, k, hi, hj, rfl⟩
+  · rintro ⟨i, j, hi, hj, rfl⟩
     refine ⟨⟨?_, ?_⟩, ?_⟩
     · intro p hp
-      simp only [List.cons_append, List.nil_append, List.mem_cons, List.mem_replicate] at hp
-      rcases hp with rfl | rfl | rfl | ⟨_, rfl⟩
+      simp only [List.mem_cons, List.not_mem_nil, or_false] at hp
+      rcases hp with rfl | rfl | rfl
       · left; simp; omega
       · right; right; right; simp
       · right; left; simp; omega
-      · right; right; right; simp
-    · simp only [List.cons_append, List.nil_append, List.map_cons, List.map_replicate]
-      rw [orderRule_cons]
-      refine ⟨rfl, by simp, by simp [List.mem_replicate], ?_, ?_⟩
-      · rw [List.count_cons, List.count_cons, List.count_replicate]; simp
-      · cases k with
-        | zero => left; rfl
-        | succ k =>
-          right
-          rw [List.getLast?_cons_cons, List.replicate_succ, List.getLast?_cons_cons, ← List.replicate_succ,
-            List.getLast?_replicate]
-          simp
+    · simp [OrderRule]
     · simp [TomoOneOk, posTests, specs_eq'.2.2.2]
 
 
